@@ -42,7 +42,10 @@ ASSUMPTIONS = [
     "beyond MAX_FRAMES = 1000 frames, which needs >= 1000 state valuations because an unsuccessful propagation leaves a strictly increasing chain "
     "of frames, or when the BMC ORACLE gives up although a counterexample exists), C10_pdr_model_total_small(_sys) (2^bits + 1 <= 1000: Success "
     "and safe, or Fail and unsafe), C10_pdr_model_fail_complete_sys (any number of state bits: a bad state reachable in <= 1000 steps gives Fail). NOT covered: systems with >= 1000 state valuations may legitimately end in Unknown at the frame limit "
-    "(the real pdr.rs returns Unknown there: the property's 'terminates with one of these two answers' holds only below the limit); the BMC "
+    "(C10_pdr_model_deep_unknown_sys: when every counterexample is longer than 1000 steps the model PROVABLY answers Unknown, for every truthful "
+    "oracle; C10_pdr_model_unknown_on_deep_counter: the 11-bit counter from 0 with bad = (c == 1500). The property's 'terminates with one of "
+    "these two answers' therefore holds only below the limit. The real pdr.rs on that counter with z3 did not return within 40 minutes - about "
+    "k^3/3 queries for k frames -; a copy with MAX_FRAMES = 20 answers Unknown from depth 21 on: candidate finding, not in known_findings.txt); the BMC "
     "fallback is an oracle (C02/C03); the real solver's termination is outside the model",
     "solver faults: the model's oracle may answer AErr / AUnknown at any query, any declare/assert/define command may fail (cmd_fail), "
     "the BMC oracle may fail (C15_pdr_model_propagates / _unknown in Props/C15.v); the harness injects faults only at response-bearing "
@@ -92,6 +95,8 @@ MANIFEST = dict(
                 "valuations: frames form a strictly increasing chain) or when the BMC oracle gives up; C10_pdr_model_total_small(_sys), "
                 "C10_pdr_enum_total_small_sys - for 2^bits + 1 <= 1000 the answer is Success and the system is safe, or Fail and it is unsafe; "
                 "C10_pdr_model_fail_complete_sys - for any number of state bits a counterexample of at most 1000 steps yields Fail; "
+                "C10_pdr_model_deep_unknown_sys / C10_pdr_model_unknown_on_deep_counter - when every counterexample is longer than 1000 steps "
+                "(11-bit counter, bad at 1500) the model answers Unknown: the limit of the property; "
                 "C10_pdr_answer_check_exact - the executable test answer_ok decides the oracle hypothesis for one answer (the driver applies "
                 "it to every recorded answer of the real solver on small systems); Props/C15.v: C15_pdr_model_propagates / _unknown - a failing "
                 "solver call ends the model's run with that error, an unknown answer is never the basis of a verdict. "
